@@ -12,11 +12,11 @@ CHECKS = {
          'return canonical buffers denoting exactly the corresponding list operation on the bit sequence, for all lengths/contents/cut '
          'points (induction over byte lists read as big-endian numbers). Tie to the code: every run executes the implementation, '
          'the extracted model and a plain bit-string oracle on ~23k (quick) / ~100k (thorough) enumerated cases incl. operand post-states. '
-         'c05_getitem/add/setitem_objects: the same for Buffer objects in any heap (operands may be one object), with what became of the other objects.',
+         'c05_getitem/add/setitem/copy/index/setint/pad_copy_objects: the same for Buffer objects in any heap (operands may be one object), with what became of the other objects.',
          'proof by refinement (byte-level model -> bit lists) + model/code correspondence', '7 C05'),
  'C06': ('Theorems c06_* : shifts (both directions, both sides, in place or not), and/or/xor/invert, value(), chunks(n, padding) of the '
          'byte-level model equal the list-level operation (append zeros / drop last bits / map2 / Z_of_bits / n-bit pieces) for all inputs; '
-         'results canonical. c06_shift_left/right/and/or/xor_objects: the same for Buffer objects in any heap (in place: the receiver holds the result, no other object changes). '
+         'results canonical. c06_shift_left/right/and/or/xor/invert/value/chunks_objects: the same for Buffer objects in any heap (in place: the receiver holds the result, no other object changes). '
          'Correspondence + oracle on all shifts in [-(N+8), N+8], chunk sizes 1..40, all side combinations.',
          'proof by refinement + model/code correspondence', '7 C06'),
  'C13': ('Theorems c13_*: == is equality of bit sequences whatever the sides; equal buffers have equal hash keys; a dict keyed by Buffers '
